@@ -8,6 +8,7 @@
 #include <sys/mman.h>
 #include <unistd.h>
 #include <memory>
+#include <iterator>
 
 namespace {
 std::string head_bstr(uint64_t n) {
@@ -50,9 +51,16 @@ std::string session(const std::string& kind_arg, const std::string& spec, const 
         size_t off = 0;
         while (off < data.size()) { ssize_t w = ::write(mfd, data.data() + off, data.size() - off); if (w <= 0) break; off += w; }
         in = std::make_unique<std::ifstream>("/proc/self/fd/" + std::to_string(mfd), std::ifstream::binary);
+    } else if (kind == "m") {
+        in = std::make_unique<std::ifstream>("/nonexistent-dir-cdnsvh/missing", std::ifstream::binary);      // failbit set by the failed open
+    } else if (kind == "e") {
+        auto ss = std::make_unique<std::istringstream>(data);                                              // a stream already read to its end
+        std::string sink((std::istreambuf_iterator<char>(*ss)), std::istreambuf_iterator<char>());
+        char c; ss->read(&c, 1);                                                                             // eofbit | failbit
+        in = std::move(ss);
     } else in = std::make_unique<std::ifstream>();     // never opened
     std::string out = "I ";
-    {
+    try {
         CDNS::CdnsDecoder dec(*in);
         bool first = true;
         for (const std::string& op : vh::split(ops, ',')) {
@@ -80,7 +88,9 @@ std::string session(const std::string& kind_arg, const std::string& spec, const 
             first = false;
             if (r.rfind("E:", 0) == 0 && !(cont && r == "E:end")) break;
         }
-    }
+    } catch (CDNS::CdnsDecoderEnd&) { out += "E:end(ctor)"; }
+    catch (CDNS::CdnsDecoderException&) { out += "E:dec(ctor)"; }
+    catch (std::exception&) { out += "E:other(ctor)"; }
     if (mfd >= 0) close(mfd);
     return out;
 }
